@@ -169,6 +169,36 @@ pub fn run(s: &dyn Subject, ctx: &Ctx) -> Option<DeclReport> {
         }
         rep.exhaustive.push((format!("f32 bit patterns {a:#x}..{b:#x} (slice {}/{} of all 2^32)", ctx.part, ctx.parts), b - a));
     }
+    // the same inputs from other threads: a fresh thread (first use of any thread-local / lazily initialised state there) and four threads at
+    // once (shared statics / caches); each observation must equal the one made sequentially on the main thread
+    if ctx.only_input.is_none() && !ctx.sweep_slice_only.get() && !dom.is_empty() && !spec.has_tag("poke") {
+        let step = (dom.len() / 150).max(1);
+        let sample: Vec<&Value> = dom.iter().enumerate().filter(|(i, _)| *i < 25 || *i + 25 >= dom.len() || i % step == 0).map(|(_, v)| v).collect();
+        let base: Vec<Obs> = sample.iter().map(|r| s.ctor(r)).collect();
+        let fresh: Vec<Obs> = std::thread::scope(|sc| sc.spawn(|| sample.iter().map(|r| s.ctor(r)).collect::<Vec<_>>()).join()).unwrap_or_default();
+        let conc: Vec<Vec<Obs>> = std::thread::scope(|sc| {
+            let hs: Vec<_> = (0..4usize).map(|k| { let sample = &sample; sc.spawn(move || {
+                // each thread walks the sample from a different offset so that different inputs are in flight at the same time
+                let n = sample.len();
+                let mut out = vec![None; n];
+                for j in 0..n { let i = (j + k * n / 4) % n; out[i] = Some(s.ctor(sample[i])); }
+                out.into_iter().map(|o| o.unwrap()).collect::<Vec<Obs>>()
+            }) }).collect();
+            hs.into_iter().map(|h| h.join().unwrap_or_default()).collect()
+        });
+        for (i, raw) in sample.iter().enumerate() {
+            rep.executions += 5;
+            if fresh.get(i) != Some(&base[i]) {
+                rep.violate("ctor:differs-on-a-fresh-thread", raw.show(), fresh.get(i).map(|o| o.show()).unwrap_or_else(|| "thread panicked".into()), base[i].show(), String::new());
+            }
+            for (k, c) in conc.iter().enumerate() {
+                if c.get(i) != Some(&base[i]) {
+                    rep.violate("ctor:differs-under-concurrent-calls", raw.show(), c.get(i).map(|o| o.show()).unwrap_or_else(|| format!("thread {k} panicked")), base[i].show(), String::new());
+                }
+            }
+        }
+        rep.guard_add("inputs_repeated_on_other_threads", sample.len() as u64);
+    }
     // bounds read from a run-time cell: every call must compare against what the expression denotes at that call
     if let (Some(seq), false, None) = (spec.tag_value("poke"), ctx.sweep_slice_only.get(), &ctx.only_input) {
         let lims: Vec<i64> = seq.split(',').filter_map(|x| x.parse().ok()).collect();
